@@ -13,6 +13,7 @@
   fuel than bytes left.
 -/
 import Gts.Bridge.ParsComb
+import Gts.Bridge.ParsSeq
 import Gts.Lemmas.GbSafe
 namespace Gts.C07
 open Gts.Gen.GoPars Gts.Bridge
@@ -175,6 +176,68 @@ example : parsAny demoEnv [parsMap (parsInt demoEnv 10) (fun r => (r, none)), pa
     (freshState [] [49, 50, 94]) .unset ≠ none :=
   gen_any_int_nopanic demoEnv demoPend demo_fillOk demo_envOk 10 9 (by decide) _ (fun _ => rfl) _ (fresh_inv _ _)
     (by rw [fresh_abs]; exact ⟨⟨[], rfl, Nat.le_refl _, fun _ hf => nomatch hf⟩, by decide, trivial⟩) _
+
+/-- **`pars.Seq(p, q)` of the module cache never panics, BOUNDED form**: the loop over the parsers reads and writes the cells
+`v[0]`, `v[1]` of the slice `make([]Result, len(ps))` built (never out of range), and neither member panics — when the members
+simulate, up to `L`, model parsers that are `Safe`, from every state that meets `Inv` and whose abstraction has at most `L` bytes
+left at the position and at every saved position, saved positions sorted (`Fr L [] 0`). -/
+theorem gen_seq_nopanic_upTo {α β : Type} (L : Nat) (env : Env ρ ε) (pend : ρ → Option ε → Bytes)
+    (va : α → ResultV → Prop) (vb : β → ResultV → Prop) (p q : GoParser ρ ε) (m : Pars.P α) (n : Pars.P β)
+    (hp : SimPUpTo L pend va p m) (hm : Safe m) (hq : SimPUpTo L pend vb q n) (hn : Safe n)
+    (g : State ρ ε) (h : Inv g) (hb : Fr L [] 0 (absState pend g)) (res : ResultV) :
+    parsSeq env [p, q] g res ≠ none :=
+  gen_agree_nopanic (seq_simUpTo L env pend va vb p q m n hp hm hq g res h hb)
+    (safe_run_nopanic (Pars.seq2_safe m n hm hn) _ hb.srt)
+
+/-- **`pars.Seq(p, q, r)` of the module cache never panics, BOUNDED form** (three members, as `gen_seq_nopanic_upTo`) -/
+theorem gen_seq3_nopanic_upTo {α β γ : Type} (L : Nat) (env : Env ρ ε) (pend : ρ → Option ε → Bytes)
+    (va : α → ResultV → Prop) (vb : β → ResultV → Prop) (vc : γ → ResultV → Prop) (p q r : GoParser ρ ε)
+    (m : Pars.P α) (n : Pars.P β) (o : Pars.P γ)
+    (hp : SimPUpTo L pend va p m) (hm : Safe m) (hq : SimPUpTo L pend vb q n) (hn : Safe n)
+    (hr : SimPUpTo L pend vc r o) (ho : Safe o)
+    (g : State ρ ε) (h : Inv g) (hb : Fr L [] 0 (absState pend g)) (res : ResultV) :
+    parsSeq env [p, q, r] g res ≠ none :=
+  gen_agree_nopanic (seq3_simUpTo L env pend va vb vc p q r m n o hp hm hq hn hr g res h hb)
+    (safe_run_nopanic (Pars.seq3_safe m n o hm hn ho) _ hb.srt)
+
+/-- **`pars.Seq(c, pars.Int).Child(1)` of the module cache never panics** — the first alternative of `parseHead` / `parseTail`
+(modifier.go): `Child(1)` indexes the two children `Seq` answered, never outside; for every reader meeting `FillOk` / `EnvOk`, every
+loop fuel above the bound, every state meeting `Inv` and `Fr L [] 0`. -/
+theorem gen_seq_int_child_nopanic (env : Env ρ ε) (pend : ρ → Option ε → Bytes) (hf : FillOk env pend) (he : EnvOk env)
+    (fuel L : Nat) (hfu : L < fuel) (c : UInt8) (g : State ρ ε) (h : Inv g) (hb : Fr L [] 0 (absState pend g))
+    (res : ResultV) : parsParserChild env (parsSeq env [parsByte env c, parsInt env fuel]) 1 g res ≠ none :=
+  gen_agree_nopanic
+    (child_simUpTo L env pend _ (fun n r => r = ResultV.int n) _ _
+      (seq_simUpTo L env pend _ _ _ _ _ _ (byte_simUpTo L env pend hf c) (Pars.byte_safe c)
+        (int_simUpTo L env pend hf he fuel hfu)) 1 (·.2)
+      (fun ab r ⟨ra, rb, hr, _, hb⟩ => ⟨[ra, rb], hr, by simp, by simpa using hb⟩) g res h hb)
+    (safe_run_nopanic (Pars.mapP_safe _ _ (Pars.seq2_safe _ _ (Pars.byte_safe c) Pars.int_safe)) _ hb.srt)
+
+/-- **`pars.Exact(p)` of the module cache never panics, BOUNDED form**, from a state at the head of the input (what
+`pars.FromString` builds): `Child(1)` finds the three children of `Seq(Head, p, End)`. -/
+theorem gen_exact_nopanic_upTo {α : Type} (L : Nat) (env : Env ρ ε) (pend : ρ → Option ε → Bytes) (hf : FillOk env pend)
+    (val : α → ResultV → Prop) (p : GoParser ρ ε) (m : Pars.P α) (hp : SimPUpTo L pend val p m) (hm : Safe m)
+    (g : State ρ ε) (h : Inv g) (hb : Fr L [] 0 (absState pend g)) (hhead : positionHead (statePosition g) = true)
+    (res : ResultV) : parsExact env p g res ≠ none :=
+  gen_agree_nopanic (exact_simUpTo L env pend hf val p m hp hm g res h hb hhead)
+    (safe_run_nopanic (Pars.exact_safe m hm) _ hb.srt)
+
+/-- non-vacuity of `gen_seq_int_child_nopanic` (and through it of `seq_simUpTo`, `child_simUpTo`), of `gen_seq_nopanic_upTo` and of
+`gen_exact_nopanic_upTo`: the demo reader, loop fuel 10, bound 9, the fresh state over `^+12` -/
+example : parsParserChild demoEnv (parsSeq demoEnv [parsByte demoEnv 94, parsInt demoEnv 10]) 1
+    (freshState [] [94, 43, 49, 50]) .unset ≠ none :=
+  gen_seq_int_child_nopanic demoEnv demoPend demo_fillOk demo_envOk 10 9 (by decide) 94 _ (fresh_inv _ _)
+    (by rw [fresh_abs]; exact ⟨⟨[], rfl, Nat.le_refl _, fun _ hf => nomatch hf⟩, by decide, trivial⟩) _
+
+example : parsSeq demoEnv [parsByte demoEnv 94, parsInt demoEnv 10] (freshState [] [94, 43, 49, 50]) .unset ≠ none :=
+  gen_seq_nopanic_upTo 9 demoEnv demoPend _ _ _ _ _ _ (byte_simUpTo 9 demoEnv demoPend demo_fillOk 94) (Pars.byte_safe 94)
+    (int_simUpTo 9 demoEnv demoPend demo_fillOk demo_envOk 10 (by decide)) Pars.int_safe _ (fresh_inv _ _)
+    (by rw [fresh_abs]; exact ⟨⟨[], rfl, Nat.le_refl _, fun _ hf => nomatch hf⟩, by decide, trivial⟩) _
+
+example : parsExact demoEnv (parsInt demoEnv 10) (freshState [] [43, 49, 50]) .unset ≠ none :=
+  gen_exact_nopanic_upTo 9 demoEnv demoPend demo_fillOk _ _ _
+    (int_simUpTo 9 demoEnv demoPend demo_fillOk demo_envOk 10 (by decide)) Pars.int_safe _ (fresh_inv _ _)
+    (by rw [fresh_abs]; exact ⟨⟨[], rfl, Nat.le_refl _, fun _ hf => nomatch hf⟩, by decide, trivial⟩) (by decide) _
 
 /-- the state `pars.FromString(s)` / `pars.FromBytes(p)` builds meets the invariant and is sorted (nothing is saved yet): every
 theorem above applies to the state the string parsers of gts start from -/
